@@ -420,8 +420,15 @@ func scenarioC08(r *Run) {
 			table := map[string][]*refFlow{}
 			var ies []*ie.IE
 			rejectAt := -1
-			if r.Ch.Choose(3, "reject") == 1 {
+			truncated := false
+			switch r.Ch.Choose(4, "reject") {
+			case 1:
 				rejectAt = r.Ch.Choose(n, "rejat")
+			case 2:
+				// the PFD Contents of the last application are cut short on the wire (the
+				// announced flow description is longer than the element): a request that
+				// cannot be accepted - refused or dropped, the table stays as it was
+				truncated = n > 0
 			}
 			for i := 0; i < n; i++ {
 				id := fmt.Sprintf("app%d", r.Ch.Choose(3, "appid"))
@@ -453,6 +460,50 @@ func scenarioC08(r *Run) {
 			lastPFDSeq = seq
 			req := message.NewPFDManagementRequest(seq, ies...)
 			var rx *RxMsg
+			if truncated {
+				raw, ok := ParsePFCP(Marshal(req))
+				if !ok || len(raw.IEs) == 0 {
+					continue
+				}
+				cut := false
+				var walk func(ts []*TLV)
+				walk = func(ts []*TLV) {
+					for _, t := range ts {
+						if t.Type == 61 && !t.Group && len(t.Val) > 6 {
+							t.Val = t.Val[:len(t.Val)-3-r.Ch.Choose(3, "pfd-cut")]
+							cut = true
+						}
+						walk(t.Kids)
+					}
+				}
+				walk(raw.IEs[len(raw.IEs)-1:])
+				if !cut {
+					continue
+				}
+				p.SendRaw(raw.Encode())
+				r.Sim.RunUntil(func() bool {
+					rx = p.FindResponse(message.MsgTypePFDManagementResponse, req.Sequence())
+					return rx != nil
+				}, r.until(2e9))
+				r.Fault("pfd-contents-truncated-on-the-wire")
+				acc := false
+				if rx != nil {
+					rx.Used = true
+					c, _ := CauseOf(rx.Msg)
+					acc = c == ie.CauseRequestAccepted
+				}
+				r.Op("PFD management with truncated PFD Contents: answered=%v accepted=%v (the table must stay as it was)", rx != nil, acc)
+				r.Skel(fmt.Sprintf("pfd:truncated:%v:%v", rx != nil, acc))
+				if acc {
+					// the decoding library made something of the element (an announced length
+					// that stays inside its buffer is not refused): the table now holds what
+					// it decoded, which this model cannot know - nothing further to judge
+					r.Inconclusive++
+					return
+				}
+				r.Probe("pfd-request-with-truncated-contents-not-accepted")
+				continue
+			}
 			if rejectAt >= 0 {
 				// make the last element unusable on the wire: strip its Application ID child
 				// (independent TLV codec), so the request must be rejected as a whole
